@@ -289,9 +289,13 @@ def model_outputs(which, modeargs, dgrams):
             lines.append("rx can x %s %s %s" % (modeargs["u"], modeargs["f"], hexs(d)))
         elif which in ("hello", "vss"):
             lines.append("rx %s %s %s" % (which, modeargs["u"], hexs(d)))
+        elif which == "crf" and modeargs.get("o") == "talker":
+            lines.append("rx crft 2000000 %s" % hexs(d))          # -m 2 (ms), rounded to the media clock period
         else:
             lines.append("rx %s %s" % (which, hexs(d)))
         lines.append("case -")
+    if which == "crf" and modeargs.get("o") == "talker":
+        lines += ["crf_fire 3", "case -"]                        # the harness lets the periodic timer expire 3 times
     r = subprocess.run([common.DRIVER], input="\n".join(lines) + "\n", capture_output=True, text=True, timeout=300)
     per = []
     cur = []
@@ -329,7 +333,7 @@ def check(rep, prop, tier, seed):
         obligations.append(("checkC03_%s" % n, "checkC03 Spec.%s Gen.%s = true" % (n, n), "by decide +kernel"))
     general = ["O1722.C18_can_bounds", "O1722.C18_can_local", "O1722.C18_can_steps", "O1722.listenLoop_bounds",
                "O1722.listenLoop_steps", "O1722.listenLoop_fuel", "O1722.C18_hello", "O1722.C18_vss", "O1722.C18_cvf",
-               "O1722.C18_aaf", "O1722.C18_crf_lookup", "O1722.C18_crf_step", "O1722.mclk_unreachable"]
+               "O1722.C18_aaf", "O1722.C18_crf_lookup", "O1722.C18_crf_step", "O1722.C18_crf_talker", "O1722.mclk_unreachable"]
     atoms_expr = "[" + ", ".join("(\"%s\", (atomsC01 Spec.%s Gen.%s) ++ (atomsC03 Spec.%s Gen.%s))" % (n, n, n, n, n) for n in fmts) + "]"
     res = pipeline.proof_stage(rep, prop, ["O1722.Gen.Data", "O1722.Props.Listeners"], obligations, general, atoms_expr)
     common.ensure_driver()
@@ -489,7 +493,7 @@ def check(rep, prop, tier, seed):
             rc, lines, err = run_real(exes[which], args, dg)
         except subprocess.TimeoutExpired:
             rc, lines, err = 96, ["WATCHDOG (harness timeout)"], ""
-        per = model_outputs(which, modeargs, dg) if (which != "crf" or modeargs.get("o") == "listener") else None
+        per = model_outputs(which, modeargs, dg)
         return rc, lines, err, per
 
     with ThreadPoolExecutor(max_workers=14) as ex:
@@ -517,11 +521,16 @@ def check(rep, prop, tier, seed):
         elif which == "crf":
             if "CRF: Stream ID mismatch" not in err.strip().splitlines()[-1:][0] if err.strip() else True:
                 key = "%s:last-datagram-not-processed" % label
-            elif per is not None:
+            elif modeargs.get("o") == "listener":
                 # listener mode: the alignment reports must be the Model's (media-clock bookkeeping)
                 _, exp_out = expected_from_model(which, per)
                 got = b"".join(bytes.fromhex(l[7:].strip()) for l in lines if l.startswith("stdout "))
                 if got != exp_out:
+                    key = "%s:differs-from-model" % label
+            else:
+                # talker mode: the AAF packets sent at the (virtual) timer expirations must be the Model's
+                exp_sent = [l for p_ in per for l in p_ if l.startswith("sent ")]
+                if [l for l in lines if l.startswith("sent ")] != exp_sent:
                     key = "%s:differs-from-model" % label
         else:
             exp_can, exp_out = expected_from_model(which, per)
@@ -551,8 +560,8 @@ def check(rep, prop, tier, seed):
                    rule="datagram sequences (1-6 adversarial + 1 final valid) per listener x mode; adversarial = valid packet with one of: "
                         "truncation at a header/message boundary, a length field at 0/small/exact+-1/beyond datagram/max, wrong ACF type or subtype, "
                         "no NUL up to 1500 octets, all-ones, random bytes, oversize, bit flips, randomised header; real main() under ASan+UBSan+watchdog; "
-                        "outputs compared with the Model (CRF: crash/hang/exit/liveness only); distinct = (listener, variant kind)",
+                        "outputs (CAN frames, stdout, packets sent) compared with the Model; distinct = (listener, variant kind)",
                    input_distribution=dist, failed_atoms=["%s:%s" % x for x in res["failed_atoms"]])
     rep.cov["samples"] = samples + [{"theorem": "C18_can_bounds"}]
     rep.assumptions += ["sockets, timers, CAN device and clock are harness stand-ins (harness/ex/vio.c); datagrams longer than the listener's "
-                        "buffer are truncated by recv as the kernel does; the CRF listener's outputs are not modelled (its media-clock search is)"]
+                        "buffer are truncated by recv as the kernel does; the CRF example's periodic timer is let expire 3 times per run"]
